@@ -195,6 +195,21 @@ ADDENDA = {
  'C20': 'Also: walker and calculator built with an offset left out; descending and all-pairs query orders; error line/column through the group / expression parsers and the pylatexenc-2 entry points; 10-symbol error alphabet.',
 }
 
+# round 4 (appended after ADDENDA)
+ADDENDA4 = {
+ 'C01': 'Round 4: words over 16 lexemes with cut-off \\begin / \\end tokens.',
+ 'C04': 'Round 4: 12-rule menu (a third dictionary overlapping the others and the defaults; group-less regex patterns whose template quotes the whole match); every code point whose compatibility (NFKC) form contains a LaTeX-active ASCII character x 72 configurations x both tables; two-rule lists run under 36 of the 72 configurations in the quick tier.',
+ 'C05': 'Round 4: words over 16 lexemes with cut-off \\begin / \\end tokens and newlines.',
+ 'C06': 'Round 4: words over 16 lexemes with cut-off \\begin / \\end tokens (unterminated environment names).',
+ 'C07': 'Round 4: 24 macro frames (the macro inside \\title / \\author / \\date followed by \\maketitle); 17-snippet history menu; cut-off environment tokens.',
+ 'C13': 'Round 4: every code point whose compatibility (NFKC) form contains a LaTeX-active ASCII character (full-width, small, vertical forms) in 7 frames x all configurations; no comment or environment node in the parsed output for ANY input.',
+ 'C15': 'Round 4: 216 layouts (a file symlink whose target passes through a directory symlink leading outside); three converters alive at once and configured one after the other.',
+ 'C17': 'Round 4: 39 deltas (a delimiter pair moved between the inline and display lists; forbidden characters changed twice); histories interleave a "use" operation (tokenise/parse with the state) before every sub_context(), the same chain over never-used states must give an equal state; strict token reading compared as well; every distinct state also PARSES a 38-document menu (strict, and tolerant where strict fails) identically to its freshly built twin.',
+ 'C18': 'Round 4: the source text (latex_verbatim) of every derived list - split part, filtered list, aggregated key-value value - equals the concatenation of its members\' source text.',
+ 'C19': 'Round 4: trees from words with cut-off environment tokens.',
+ 'C20': 'Round 4: error line/column for errors raised by the token reader itself (cut-off \\begin / \\end, \\verb without argument) after LF / CR line ends: words <= 4/5 over 12 lexemes.',
+}
+
 
 def main():
     ids = ['C%02d' % i for i in range(1, 21)]
@@ -205,6 +220,8 @@ def main():
             cat, text, note, tech, ref = CHECKS[pid]
             if pid in ADDENDA:
                 text = text + ' ' + ADDENDA[pid]
+            if pid in ADDENDA4:
+                text = text + ' ' + ADDENDA4[pid]
             checks.append({
                 'property_id': pid,
                 'quick_cmd': './check %s --tier quick' % pid,
